@@ -99,6 +99,13 @@ pub struct ProtoWorld {
     pub handlers: Vec<ChannelHandler>,
     pub restarts: u32,
     pub requests: u64,
+    /// how SetupChannel encodes the channel type: 0 = the project's own encoder
+    /// (`commitment_type_to_channel_type`, sets the legacy anchor bit next to the zero-fee one),
+    /// 1 = the minimal BOLT-9 set ({12} static-remotekey, {12, 22} zero-fee anchors)
+    pub channel_type_encoding: u8,
+    /// compare the signer's ChannelSetup with the intended one after SetupChannel (harness
+    /// precondition of C01/C02); C04's wire group turns it off and judges by signatures instead
+    pub check_setup: bool,
 }
 
 /// Where a request is sent.
@@ -201,6 +208,8 @@ impl ProtoWorld {
             handlers: vec![],
             restarts: 0,
             requests: 0,
+            channel_type_encoding: 0,
+            check_setup: true,
         };
         w.assert_version_behaviour();
         w
@@ -325,7 +334,16 @@ impl ProtoWorld {
             remote_funding_pubkey: pk(&cpp.funding_pubkey),
             remote_to_self_delay: s.counterparty_selected_contest_delay,
             remote_shutdown_script: Octets(vec![]),
-            channel_type: Octets(commitment_type_to_channel_type(s.commitment_type)),
+            channel_type: Octets(if self.channel_type_encoding == 0 {
+                commitment_type_to_channel_type(s.commitment_type)
+            } else {
+                // feature bits as they appear on the wire (big endian): bit 12, plus bit 22 for
+                // zero-fee anchors
+                match s.commitment_type {
+                    CommitmentType::AnchorsZeroFeeHtlc => vec![0x40, 0x10, 0x00],
+                    _ => vec![0x10, 0x00],
+                }
+            }),
         });
         match self.request(To::Chan(ci), msg) {
             Out::Ok(rep) => {
@@ -335,7 +353,9 @@ impl ProtoWorld {
                 self.chans[ci].holder_seed = self.holder_seed(&id0);
                 // the signer's view of the setup must be the one the reference builders use
                 let got = self.node().with_channel(&id0, |c| Ok(c.setup.clone())).expect("ready channel");
-                assert_eq!(got, s, "SetupChannel conveyed the intended setup");
+                if self.check_setup {
+                    assert_eq!(got, s, "SetupChannel conveyed the intended setup");
+                }
                 Out::Ok(())
             }
             Out::Err(e) => Out::Err(e),
